@@ -10,7 +10,7 @@ From TLV Require Import Base.Shape Base.PyList Base.Tensor Base.Ops Model.Base M
      Proofs.SvdDecompTuckerErr Proofs.SvdDecompTuckerBound Proofs.SvdDecompHosvdBound
      Proofs.SvdDecompPartial Proofs.SvdDecompTuckerGen Proofs.SvdDecompRingErr Proofs.SvdDecompTTMErr
      Proofs.SvdDecompValidate Proofs.SvdDecompRingPartial Proofs.SvdDecompRingErrR
-     Proofs.SvdDecompRankCond Model.SvdDecompSymeig Proofs.SvdDecompSymeig Proofs.SvdDecompSymeigRing Proofs.SvdDecompSymeigEig Model.SvdDecompRand Proofs.SvdDecompRand.
+     Proofs.SvdDecompRankCond Model.SvdDecompSymeig Proofs.SvdDecompSymeig Proofs.SvdDecompSymeigRing Proofs.SvdDecompSymeigEig Model.SvdDecompRand Proofs.SvdDecompRand Proofs.SvdDecompEckartYoung.
 Import ListNotations.
 
 (* exactness of one TT-SVD step, over every commutative ring: truncating + sign-flipping a
@@ -834,3 +834,87 @@ Print Assumptions C09_tensor_ring_randomized_exact_R.
 Example C09_nonvacuous_randomized_contract :
   rand_call_ok rxM 2 2 1 (randomized_svd Rops (fun _ _ => rxI) (fun _ => (rxI, [2; 0]%R, rxI)) rxM rxI 1 5 0).
 Proof. exact rand_contract_satisfiable. Qed.
+
+(* ============================================================ Eckart-Young is a theorem: the `_partial` lower bounds become FULL ===== *)
+(* Eckart-Young-Mirsky in the Frobenius norm, in the form the C09 bounds use: for every SVD answer meeting the full contract with
+   non-negative non-increasing singular values, no product P Q with inner dimension r is closer to M than the discarded tail.
+   Adapter (Proofs/SvdDecompEckartYoung.v) from the function-level proof eckart_young_fn of Proofs/SvdEckartYoung.v (C05) *)
+Theorem C09_eckart_young : forall (M : tensor R) (m n r : nat) (a : svdans),
+  svd_sorted_contract M m n r a ->
+  forall (P Q : nat -> nat -> R),
+    (tail2 Rops r (snd3 a) <=
+     fsumn Rops m (fun i => fsumn Rops n (fun c => sq Rops (g Rops M [i; c] - fsumn Rops r (fun b => P i b * Q b c)))))%R.
+Proof. exact eckart_young_holds. Qed.
+Print Assumptions C09_eckart_young.
+
+(* FULL: whatever tucker() returns (any number of sweeps, any oracle for the run itself), the squared error is at least the
+   discarded tail of EVERY mode unfolding of X at the number of columns of the returned factor *)
+Theorem C09_tucker_error_lower : forall (svd : nat -> tensor R -> svdans)
+         (X : tensor R) (rank : rank_spec) (n_iter : nat) (core : tensor R) (fs : list (tensor R)) (Xh : tensor R)
+         (k : nat) (Xk : tensor R) (r : nat) (a : svdans),
+  wf X -> 0 < prod (shape X) -> k < ndim X ->
+  tucker Rops svd X rank n_iter = Ok (core, fs) -> tucker_to_tensor Rops core fs = Ok Xh ->
+  k < length fs -> shape (nth k fs (mk [] [])) = [nth k (shape X) 0; r] -> shape Xh = shape X ->
+  unfold 0%R X k = Ok Xk ->
+  svd_sorted_contract Xk (nth k (shape X) 0) (prod (remove_nth k (shape X))) r a ->
+  (tail2 Rops r (snd3 a) <= terr2 Rops X Xh)%R.
+Proof. exact (fun svd => tucker_error_lower_partial svd eckart_young_holds). Qed.
+Print Assumptions C09_tucker_error_lower.
+
+(* FULL: the squared TT-SVD error is at least the discarded tail of EVERY sequential unfolding of X at the bond dimension returned *)
+Theorem C09_tt_error_lower : forall (svd : nat -> tensor R -> svdans)
+  (X : tensor R) (rank : rank_spec) (cores : list (tensor R)) (k : nat) (aX : svdans),
+  tensor_train Rops svd X rank = Ok cores -> 0 < k -> k < ndim X ->
+  svd_sorted_contract (x_unfolding X k) (prod (firstn k (shape X))) (prod (skipn k (shape X)))
+                    (nth 2 (shape (nth (k - 1) cores (mk [] []))) 0) aX ->
+  (tail2 Rops (nth 2 (shape (nth (k - 1) cores (mk [] []))) 0%nat) (snd3 aX) <= tt_err2 Rops X cores)%R.
+Proof. exact (fun svd => tt_error_lower_partial svd eckart_young_holds). Qed.
+Print Assumptions C09_tt_error_lower.
+
+(* FULL: tensor_ring, every start mode: for every cut after b modes the squared error is at least the discarded tail, at
+   l * (bond b) kept triplets, of the unfolding (modes 0..b-1 | modes b..n-1) of X *)
+Theorem C09_tensor_ring_error_lower : forall (svd : nat -> tensor R -> svdans)
+  (X : tensor R) (rank : rank_spec) (mode : nat) (cores : list (tensor R)),
+  tensor_ring Rops svd X rank mode = Ok cores ->
+  exists l, bonds l cores l /\
+    forall b aX, 0 < b -> b < ndim X ->
+      svd_sorted_contract (x_unfolding X b) (prod (firstn b (shape X))) (prod (skipn b (shape X)))
+                        (l * nth 2 (shape (nth (b - 1) cores (mk [] []))) 0) aX ->
+      (tail2 Rops (l * nth 2 (shape (nth (b - 1) cores (mk [] []))) 0%nat) (snd3 aX) <= tr_err2 Rops X cores)%R.
+Proof. exact (fun svd => tensor_ring_error_lower_partial svd eckart_young_holds). Qed.
+Print Assumptions C09_tensor_ring_error_lower.
+
+(* FULL: from the property's RANK CONDITION to the per-run contract: a matrix that factors through inner dimension r has only
+   zero singular values beyond r *)
+Theorem C09_low_rank_svd_contract : forall (M : tensor R) (m n r : nat) (a : svdans),
+  svd_sorted_contract M m n r a -> factors_through M m n r -> svd_contract M m n r a.
+Proof. exact (low_rank_svd_contract eckart_young_holds). Qed.
+Print Assumptions C09_low_rank_svd_contract.
+
+(* FULL: HOSVD (tucker with n_iter_max = 0) is exact whenever the requested ranks are at least the ranks of the mode unfoldings
+   of X -- the property's own condition *)
+Theorem C09_hosvd_exact_from_rank_condition :
+  forall (svd : nat -> tensor R -> svdans) (X : tensor R) (rank : rank_spec) (core : tensor R) (fs : list (tensor R)),
+  wf X -> 0 < prod (shape X) ->
+  hosvd_rank_condition svd X (validate_tucker_rank (ndim X) rank) 0 0 ->
+  tucker Rops svd X rank 0 = Ok (core, fs) ->
+  tucker_to_tensor Rops core fs = Ok X.
+Proof. exact (hosvd_exact_from_rank_condition_partial eckart_young_holds). Qed.
+Print Assumptions C09_hosvd_exact_from_rank_condition.
+
+(* FULL local forms: ANY cores with matching bonds (not only those the algorithms return) *)
+Theorem C09_tt_error_lower_local : forall (X : tensor R) (cores : list (tensor R)) (k : nat) (aX : svdans),
+  bonds 1 cores 1 -> length cores = ndim X -> 0 < k -> k < ndim X ->
+  svd_sorted_contract (x_unfolding X k) (prod (firstn k (shape X))) (prod (skipn k (shape X)))
+         (nth 2 (shape (nth (k - 1) cores (mk [] []))) 0) aX ->
+  (tail2 Rops (nth 2 (shape (nth (k - 1) cores (mk [] []))) 0%nat) (snd3 aX) <= tt_err2 Rops X cores)%R.
+Proof. exact (fun X cores k aX Hb Hl H0 Hk Hc => chain_cores_error_lower_local X cores k aX Hb Hl H0 Hk (eckart_young_holds _ _ _ _ _ Hc)). Qed.
+Print Assumptions C09_tt_error_lower_local.
+
+Theorem C09_tensor_ring_error_lower_local : forall (X : tensor R) (cores : list (tensor R)) (l b : nat) (aX : svdans),
+  bonds l cores l -> length cores = ndim X -> 0 < b -> b < ndim X ->
+  svd_sorted_contract (x_unfolding X b) (prod (firstn b (shape X))) (prod (skipn b (shape X)))
+         (l * nth 2 (shape (nth (b - 1) cores (mk [] []))) 0) aX ->
+  (tail2 Rops (l * nth 2 (shape (nth (b - 1) cores (mk [] []))) 0%nat) (snd3 aX) <= tr_err2 Rops X cores)%R.
+Proof. exact (fun X cores l b aX Hb Hl H0 Hk Hc => ring_error_lower_local X cores l b aX Hb Hl H0 Hk (eckart_young_holds _ _ _ _ _ Hc)). Qed.
+Print Assumptions C09_tensor_ring_error_lower_local.
